@@ -113,7 +113,9 @@ OTHER_KINDS = [None, True, 0, 1, 1.5, float('nan'), float('inf'), -float('inf'),
                datetime.datetime(2020, 1, 2, 3, 4, 5), datetime.date(2020, 1, 2),
                datetime.datetime(2020, 1, 2, 3, 4, 5, tzinfo=datetime.timezone(datetime.timedelta(hours=2))),
                datetime.datetime(2020, 1, 2, 3, 4, 5, tzinfo=datetime.timezone.utc),
-               [], (), {}, [1], (1,), {'a': 1}, bytearray(b'x'), 2 ** 70, -2 ** 70]
+               [], (), {}, [1], (1,), {'a': 1}, bytearray(b'x'), 2 ** 70, -2 ** 70,
+               # tuples of several lengths: a refusal formatted with a bare `%` breaks on exactly these
+               (1, 2), ('a', 'b', 'c'), (('k', 1), ('l', 2)), ((),), set(), frozenset([1]), range(2)]
 
 
 def candidate_values(pt):
@@ -407,6 +409,8 @@ def neighbours(m, t, av, rnd, pkg):
             out.append(('element_wrong_kind', av[:-1] + [Obj()]))
             out.append(('tuple_for_list', tuple(av)))
         out.append(('scalar_for_list', 5))
+        out.append(('dict_for_list', Raw({}, NOT_AV)))
+        out.append(('set_for_list', Raw(set(), NOT_AV)))
         for nm, pv in seq_impostors(m, rt, av):
             out.append((nm, Raw(pv, NOT_AV)))
         # a list nested one level down (list of lists) given as something that is not a list
@@ -416,6 +420,10 @@ def neighbours(m, t, av, rnd, pkg):
     elif rt.kind == 'map' and isinstance(av, dict):
         out.append(('non_string_key', dict(av, **{}) | {5: next(iter(av.values()))} if av else {5: None}))
         out.append(('list_for_map', []))
+        for nm, pv in (('empty_tuple_for_map', ()), ('pair_tuple_for_map', tuple(av.items())[:2] or (('k', 1),)),
+                       ('tuple3_for_map', ('a', 'b', 'c')), ('one_tuple_for_map', ('a',)), ('set_for_map', set()),
+                       ('str_for_map', 'map'), ('int_for_map', 7)):
+            out.append((nm, Raw(pv, NOT_AV)))
         vrt, _ = m.resolve_alias(rt.args['value'])
         if vrt.kind == 'list' and all(x is None or _plain_list(x) for x in av.values()):
             for k0, v0 in av.items():
@@ -453,6 +461,9 @@ def neighbours(m, t, av, rnd, pkg):
                     pass
             out.append(('object_for_struct', Raw(Obj(), NOT_AV)))
             out.append(('dict_for_struct', Raw({}, NOT_AV)))
+            for nm, pv in (('empty_tuple_for_struct', ()), ('pair_tuple_for_struct', (1, 2)),
+                           ('str_for_struct', 's'), ('list_for_struct', [1])):
+                out.append((nm, Raw(pv, NOT_AV)))
         elif d.kind == 'union' and isinstance(av, UV):
             for x in others[:6]:
                 if x.kind == 'union':
@@ -489,5 +500,8 @@ def neighbours(m, t, av, rnd, pkg):
                         rel = 'unrelated_union'
                     out.append((rel, oav))
             out.append(('object_for_union', Raw(object(), NOT_AV)))
+            for nm, pv in (('empty_tuple_for_union', ()), ('pair_tuple_for_union', (av.tag, None)),
+                           ('dict_for_union', {'.tag': av.tag})):
+                out.append((nm, Raw(pv, NOT_AV)))
             out.append(('string_for_union', Raw(av.tag, NOT_AV)))
     return out
